@@ -22,7 +22,7 @@ import c05_real, c05_gen, c05_instr
 
 MODEL_FILES = ['MaltModel/Py/Trace.lean', 'MaltModel/Cfg/Builder.lean', 'MaltModel/Cfg/AstToCfg.lean',
                'MaltModel/Cfg/Check.lean', 'MaltModel/Proofs/C05Proj.lean', 'MaltModel/Proofs/C05Check.lean',
-               'MaltModel/Proofs/C05Frame.lean', 'MaltModel/Proofs/C05Paths2.lean', 'MaltModel/Proofs/C05Wf.lean',
+               'MaltModel/Proofs/C05Frame.lean', 'MaltModel/Proofs/C05Paths2.lean', 'MaltModel/Proofs/C05Wf.lean', 'MaltModel/Proofs/C05Owners.lean',
                'MaltModel/Drv/C05.lean']
 
 CLS_JUMP = 'jump_in_handler_of_try_with_finally'
